@@ -33,7 +33,7 @@ fn case_strategy() -> BoxedStrategy<Case> {
     (
         prop::sample::select(vec![11usize, 15, 21, 31]),
         3usize..=8,
-        proptest::collection::vec(0u8..4, 100..400),
+        proptest::collection::vec(0u8..4, 300..800),
         any::<u16>(),
         any::<u16>(),
         proptest::collection::vec((any::<u16>(), any::<u16>(), proptest::collection::vec(any::<bool>(), 2..8)), 1..4),
@@ -114,12 +114,55 @@ pub fn materialise(c: &Case) -> Result<Mat, String> {
             }
         }
     }
-    // every derived sample must itself have unique (k-1)-mers on both strands
+    // Precondition (repeat-free sequence): over the union of all samples a (k-1)-mer may only recur
+    // at the same place, i.e. spanning the same ancestor coordinates — in particular every sample has
+    // unique (k-1)-mers on both strands, and a junction created by a deletion in one sample does not
+    // coincide with sequence found elsewhere in another sample.
     let w = k - 1;
-    for s in &fwd {
-        let origins: Vec<u64> = (0..=(s.len() - w)).map(|i| i as u64).collect();
-        if !gen::words_consistent(&[(s.clone(), origins)], w, false) {
-            return Err("(k-1)-mers not unique in a derived sample".into());
+    let mut items: Vec<(Vec<u8>, Vec<u64>)> = Vec::new();
+    for (j, s) in fwd.iter().enumerate() {
+        // ancestor coordinate of every base of sample j
+        let mut coord: Vec<usize> = (0..anc.len()).collect();
+        if let Some((tj, cut)) = trunc {
+            if tj == j {
+                coord.truncate(cut);
+            }
+        }
+        for (p, ln, cs) in indels.iter().rev() {
+            if cs[j] && *p + *ln <= coord.len() {
+                coord.drain(*p..*p + *ln);
+            }
+        }
+        if coord.len() != s.len() || s.len() < w {
+            return Err("internal: coordinate map".into());
+        }
+        let origins: Vec<u64> = (0..=(s.len() - w)).map(|i| ((coord[i] as u64) << 32) | coord[i + w - 1] as u64).collect();
+        items.push((s.clone(), origins));
+    }
+    // The same word may recur in another sample if it starts OR ends at the same ancestor coordinate:
+    // a deletion whose first base equals the base behind it can be placed one base further right, so a
+    // carrier window ending just behind the junction equals the non-carrier window with the same start
+    // (and symmetrically on the left). Anything else is a real repeat.
+    {
+        let mut map: std::collections::HashMap<Vec<u8>, u64> = std::collections::HashMap::new();
+        for (seq, origins) in &items {
+            for i in 0..=(seq.len() - w) {
+                let (key, self_rc) = gen::word_key(&seq[i..i + w], false);
+                if self_rc {
+                    return Err("a (k-1)-mer is its own reverse complement".into());
+                }
+                match map.get(&key) {
+                    Some(o) => {
+                        let (s1, e1, s2, e2) = (o >> 32, o & 0xffff_ffff, origins[i] >> 32, origins[i] & 0xffff_ffff);
+                        if s1 != s2 && e1 != e2 {
+                            return Err("(k-1)-mers not unique over the union of the derived samples".into());
+                        }
+                    }
+                    None => {
+                        map.insert(key, origins[i]);
+                    }
+                }
+            }
         }
     }
     let samples = fwd
@@ -140,7 +183,12 @@ pub static FOUND: AtomicU64 = AtomicU64::new(0);
 fn check(c: &Case, ctx: &Ctx) -> Outcome {
     let m = match materialise(c) {
         Ok(m) => m,
-        Err(e) => return Outcome::Reject(e),
+        Err(e) => {
+            if std::env::var("VERIF_DEBUG").is_ok() {
+                eprintln!("REJECT k={} n={} indels={} trunc={:?}: {e}", c.k, c.n_samples, c.indels.len(), c.trunc.is_some());
+            }
+            return Outcome::Reject(e);
+        }
     };
     let k = c.k;
     let dir = ctx.case_dir();
@@ -266,7 +314,7 @@ fn post(rt: &mut Runtime) {
     }
 }
 
-const RULE: &str = "generated: ancestor (all insertions present) with unique (k-1)-mers on both strands, 1-3 indels of length 1..min(10,k-1) at least 4k apart and 2k from the ends, carrier sets non-empty and proper over 3-8 samples, every derived sample re-checked for unique (k-1)-mers (rejections counted), samples randomly reverse-complemented, k in {11,15,21,31}, threads 1/2/4; in a third of the cases one of >= 4 samples is truncated >= 2k before an indel (neither form present: must be genotyped '.', run with -m 0.4). Oracle per record: before+REF+after (or its reverse complement) occurs in exactly the samples genotyped 0, before+ALT+after in exactly those genotyped 1, '.' iff neither or both; the record matches one planted indel by length and carriers, none twice, none unmatched; aggregate recall >= 90% (checked when >= 200 planted). Non-trivial: >= 1 indel reported.";
+const RULE: &str = "generated: ancestor (all insertions present) with unique (k-1)-mers on both strands, 1-3 indels of length 1..min(10,k-1) at least 4k apart and 2k from the ends, carrier sets non-empty and proper over 3-8 samples, the union of all derived samples re-checked: a (k-1)-mer may recur only at the same ancestor coordinates (rejections counted), samples randomly reverse-complemented, k in {11,15,21,31}, threads 1/2/4; in a third of the cases one of >= 4 samples is truncated >= 2k before an indel (neither form present: must be genotyped '.', run with -m 0.4). Oracle per record: before+REF+after (or its reverse complement) occurs in exactly the samples genotyped 0, before+ALT+after in exactly those genotyped 1, '.' iff neither or both; the record matches one planted indel by length and carriers, none twice, none unmatched; aggregate recall >= 90% (checked when >= 200 planted). Non-trivial: >= 1 indel reported.";
 
 fn stages(tier: Tier) -> Vec<Box<dyn Stage>> {
     vec![gen_stage_show("indels", RULE, tier.pick(1600, 20_000), 150, case_strategy, check, |c| match materialise(c) {
